@@ -1408,10 +1408,24 @@ def correspondence(ctx):
 
     # ------------------------------------------------ sag and slopes: 2D-Q
     qkinds = ['cos', 'sin', 'mixed', 'holes', 'ragged', 'm1long', 'len1']
-    for ci in range(ctx.scale(400, 5000)):
-        kind = qkinds[ci % len(qkinds)]
-        cm0, ams, bms = q2d_content(rng, kind, ctx.scale(3, 5), ctx.scale(5, 7))
-        u, t = float(rng.uniform(0.1, 0.95)), float(rng.uniform(0, 6.2))
+    # SYSTEMATIC single-term content first (one-hot radial vectors at every position of every length 1..5 / ..7, cosine-only and
+    # sine-only separately, azimuthal orders 1..4 / ..6): every (side, m, length) guard of the slope accumulation, whatever the seed
+    onehot = []
+    for m in range(1, ctx.scale(5, 7)):
+        for n in range(1, ctx.scale(6, 8)):
+            for pos in range(n):
+                v = [1.0 if i == pos else 0.0 for i in range(n)]
+                pad = [[] for _ in range(m - 1)]
+                onehot.append(('onehot-cos', [], pad + [v], pad + [[]]))
+                onehot.append(('onehot-sin', [], pad + [[]], pad + [v]))
+    for ci in range(len(onehot) + ctx.scale(400, 5000)):
+        if ci < len(onehot):
+            kind, cm0, ams, bms = onehot[ci]
+            u, t = (0.3, 0.4) if ci % 2 else (0.8, 2.0)
+        else:
+            kind = qkinds[ci % len(qkinds)]
+            cm0, ams, bms = q2d_content(rng, kind, ctx.scale(3, 5), ctx.scale(5, 7))
+            u, t = float(rng.uniform(0.1, 0.95)), float(rng.uniform(0, 6.2))
         case = {'item': 'zzq2d', 'cm0': cm0, 'ams': ams, 'bms': bms, 'u': [u], 't': [t]}
         nz = bool(cm0) or any(len(a) for a in ams) or any(len(b) for b in bms)
         ctx.case('zzq2d', case, nontrivial=nz, tag=kind + ('/m0' if cm0 else '/no-m0'))
